@@ -11,7 +11,64 @@ from . import c03 as _c03
 
 # Field.rotate90 is the only transformation defined on fields: its contract carries Inv(Field) (array shape (*n, nvdim),
 # Boolean validity of shape n), in-place returns self and equals the copy result, refusal leaves the object unmodified
-CONTRACTS = [RegionTranslate(), RegionScale(), RegionRotate90(), MeshTranslate(), MeshScale(), MeshRotate90(), FieldRotate90()]
+from .c14 import SubregionsSetter as _Setter, frac_box as _frac_box, _USE as _USE_C14
+from pyvc.contracts import State
+from pyvc.states import sym_mesh
+
+
+class SubregionsOwned(_Setter):
+    """Separation part of Inv(Mesh): the pre-states of the mesh transformations take the mesh's region and its subregions to
+    be pairwise distinct objects that nobody else holds (an in-place step that walks over them would otherwise apply its map
+    twice to a shared object, or move a caller's Region).  That invariant is ESTABLISHED here: every way a mesh receives
+    subregions (constructor, assignment, the copying transformations) ends in this setter, which must store fresh Region
+    objects - also when the object handed in already carries the mesh's dims / units / tolerance, when the same object is
+    handed in under two names, and when it is the mesh's own region object."""
+    name = 'Mesh.subregions.setter [ownership]'
+    no_crosscheck = True
+
+    def configs(s, tier):
+        nd = [1, 2] if tier == 'quick' else [1, 2, 3]
+        return [{'ndim': d, 'scen': sc, 'old': 1} for d in nd for sc in ('same_meta', 'same_object_twice', 'mesh_region_itself')]
+
+    def use_contracts(s):
+        return _USE_C14
+
+    def pre_state(s, E, cfg):
+        m, assume = sym_mesh(E, cfg['ndim'], nsub=cfg['old'], tf=1e-12, cellcond=True)
+        sc = cfg['scen']
+        if sc == 'mesh_region_itself':
+            val = {'whole': m.attrs['_region']}
+        else:
+            box, _ = _frac_box(E, m, 'n1', 'lattice', assume, foreign_meta=False)
+            val = {'new': box}
+            if sc == 'same_object_twice':
+                val['again'] = box
+        st = State(m, [val], {})
+        st.assume = assume
+        st.scen = 'lattice'
+        return st
+
+    def raises(s, E, st):
+        return []
+
+    def post(s, E, st, result):
+        m = st.self
+        val = st.args[0]
+        subs = m.attrs.get('_subregions')
+        if not isinstance(subs, dict):
+            return [('subregions is a dict', False)]
+        out = [('holds exactly the given names, in order', list(subs.keys()) == list(val.keys()))]
+        stored = list(subs.items())
+        for k, sr in stored:
+            out.append((f'{k}: not the object handed in (the mesh owns a fresh Region)', all(sr is not g for g in val.values())))
+            out.append((f'{k}: not the mesh region object', sr is not m.attrs['_region']))
+        for i, (k, sr) in enumerate(stored):
+            for k2, sr2 in stored[i + 1:]:
+                out.append((f'{k} / {k2}: two distinct objects', sr is not sr2))
+        return out
+
+
+CONTRACTS = [RegionTranslate(), RegionScale(), RegionRotate90(), MeshTranslate(), MeshScale(), MeshRotate90(), FieldRotate90(), SubregionsOwned()]
 _BY_NAME = {c.name: c for c in CONTRACTS}
 _USE = [RegionInit(), MeshInit(), RegionTranslate(), RegionScale(), RegionRotate90(), FieldInit()]
 setup_engine = _c03.setup_engine
@@ -31,6 +88,9 @@ TRUSTED = ['contract of Region.__init__ (discharged under C01)',
            '[A-trig] cos/sin of k*pi/2 are the exact quarter-turn table on k mod 4']
 ASSUMPTIONS = ['A-trig: the 6e-17 residue of cos(pi/2) in doubles is ignored (covered by the bounded tier)']
 MUTANTS = {
+    'setter_keeps_object': {'module': 'mesh', 'contract': 'Mesh.subregions.setter [ownership]', 'config': {'ndim': 1, 'scen': 'same_meta', 'old': 1},
+                            'old': '            name: df.Region(\n                p1=sr.pmin,\n                p2=sr.pmax,\n                dims=self.region.dims,\n                units=self.region.units,\n                tolerance_factor=self.region.tolerance_factor,\n            )\n',
+                            'new': '            name: sr\n', 'expect': 'not the object handed in'},
     'translate_pmax_minus': {'module': 'region', 'contract': 'Region.translate', 'config': {'ndim': 2, 'inplace': True},
                              'old': 'self._pmax = np.add(self.pmax, vector)', 'new': 'self._pmax = np.add(self.pmin, vector)'},
     'rotate_sign': {'module': 'region', 'contract': 'Region.rotate90', 'config': {'ndim': 2, 'inplace': False, 'ax1': 0, 'ax2': 1},
